@@ -7,7 +7,10 @@ func (nodes ChildNodes) Individuals() (individuals IndividualNodes) {
 		pointer := valueToPointer(child.Value())
 		individual := nodes[0].Family().Document().NodeByPointer(pointer)
 
-		individuals = append(individuals, individual.(*IndividualNode))
+		// The pointer may not exist or may belong to another kind of record.
+		if individual, ok := individual.(*IndividualNode); ok {
+			individuals = append(individuals, individual)
+		}
 	}
 
 	return
